@@ -46,6 +46,8 @@ def plan(tier, seed):
                       "budget_s": 60 if tier == "quick" else 420})
     specs.append({"name": "sweep", "kind": "sweep"})
     specs.append({"name": "contracts", "kind": "contracts"})
+    if tier == "thorough":
+        specs.append({"name": "repo-tests", "kind": "repo_tests", "primitive_monitors": False})
     return specs
 
 
@@ -117,6 +119,11 @@ def run_shard(spec, acc, ctx):
     import toolkit.hash as hash_mod
     rng = ctx.rng
     kind = spec["kind"]
+    if kind == "repo_tests":
+        from vlib import repotests
+        repotests.run(acc, ctx, ["test/test_sse_schemes/test_CJJ14_PiPtr.py", "test/test_sse_schemes/test_ANSS16_Scheme3.py"],
+                      ["insitu:prf"])
+        return
     if kind == "rand":
         seen_prf, seen_hash = {}, {}
         fixed_klen = rng.choice([16, 24, 32])
@@ -236,6 +243,7 @@ def finish(m, tier, seed):
         "hash_output_lengths_seen": len(m["sets"].get("hash_out_lens", [])),
         "contract_checks": {k[9:]: v for k, v in c.items() if k.startswith("contract.")},
         "insitu_contract_evaluations": {k: v for k, v in c.items() if k.startswith("insitu.")},
+        "repository_tests_under_monitors": {k: v for k, v in c.items() if k.startswith("repo_tests.")},
     }
     return {"coverage": cov, "inconclusive": inc,
             "assumptions": ["hashlib / hmac of the standard library are the trusted primitives of the reference",
